@@ -1319,6 +1319,47 @@ PIP_Tree_Node
 }
 
 void
+PIP_Tree_Node::shift_artificial_parameters(const dimension_type old_space_dim,
+                                           const dimension_type n) {
+  // The artificial parameters are the dimensions starting from old_space_dim.
+  const Variable first_ap(old_space_dim);
+  if (constraints_.space_dimension() > old_space_dim) {
+    Constraint_System new_cs;
+    for (Constraint_System::const_iterator i = constraints_.begin(),
+           i_end = constraints_.end(); i != i_end; ++i) {
+      Linear_Expression expr(i->expression());
+      if (expr.space_dimension() > old_space_dim) {
+        expr.shift_space_dimensions(first_ap, n);
+      }
+      if (i->is_equality()) {
+        new_cs.insert(expr == 0);
+      }
+      else {
+        PPL_ASSERT(i->is_nonstrict_inequality());
+        new_cs.insert(expr >= 0);
+      }
+    }
+    swap(constraints_, new_cs);
+  }
+  for (Artificial_Parameter_Sequence::iterator
+         i = artificial_parameters.begin(),
+         i_end = artificial_parameters.end(); i != i_end; ++i) {
+    if (i->space_dimension() > old_space_dim) {
+      i->shift_space_dimensions(first_ap, n);
+    }
+  }
+  if (const PIP_Decision_Node* const decision_node_p = as_decision()) {
+    PIP_Decision_Node& dn = const_cast<PIP_Decision_Node&>(*decision_node_p);
+    if (dn.child_node(true) != nullptr) {
+      dn.child_node(true)->shift_artificial_parameters(old_space_dim, n);
+    }
+    if (dn.child_node(false) != nullptr) {
+      dn.child_node(false)->shift_artificial_parameters(old_space_dim, n);
+    }
+  }
+}
+
+void
 PIP_Tree_Node::parent_merge() {
   const PIP_Decision_Node& parent = *parent_;
 
